@@ -2,3 +2,4 @@ pub mod quake;
 pub mod valve;
 pub mod gamespy;
 pub mod unreal2;
+pub mod minecraft;
